@@ -19,12 +19,14 @@ def run(prog, chk):
         "a user GDEF block suppresses generated classes for GlyphClassDefStatement and generated carets for every LigatureCaret*Statement kind feaLib defines (R18.2)",
         "carets are collected per glyph, sorted, then rounded; glyph classes are restricted to exported glyphs and sorted (R18.3)",
         "RightToLeft flag is set exactly when direction != 'LTR'; .LTR/.RTL suffixes decide the direction before that test; the LTR/RTL split is by membership in the LTR glyph set and skipped for suffixed anchors; coordinates are rounded (R18.4)",
+        "the LTR glyph set is classifyGlyphs(unicodeScriptDirection, whole cmap, compiled GSUB, designspace-rule substitutions) and classifyGlyphs closes each class together with the neutral glyphs (R18.5)",
     ]
     chk.not_decided += ["the values read back from the compiled GDEF/GPOS", "script direction data (unicodedata)"]
     r181(prog, chk)
     r182(prog, chk)
     r183(prog, chk)
     r184(prog, chk)
+    r185(prog, chk)
 
 
 def r181(prog, chk):
@@ -310,7 +312,74 @@ def r184(prog, chk):
     chk.minimum("R18.4", 12)
 
 
+# ----------------------------------------------------------------------------- R18.5
+def r185(prog, chk):
+    """The set of left-to-right glyphs is classifyGlyphs(unicodeScriptDirection,
+    <the whole cmap>, <the compiled GSUB>, <extra substitutions>): classifyGlyphs
+    closes each direction's glyphs together with the direction-neutral ones over GSUB,
+    so a restricted cmap (or no GSUB) loses unencoded alternates."""
+    ix = prog.ix
+    cw = ix.get_class(CURS)
+    mf = cw.methods["_makeCursiveFeature"]
+    calls = [c for c in calls_named(mf, "classifyGlyphs")]
+    need(len(calls) >= 1, f"cannot interpret {mf.short}: classifyGlyphs call")
+    for c in calls:
+        k = A.keytext(mf.node, c)
+        f0 = A.arg_at(c, 0, "unicodeFunc")
+        d = ix.resolve_expr(mf.module, f0, cw) if f0 is not None else None
+        ok = d is not None and ix.canonical(d) == "ufo2ft.util.unicodeScriptDirection"
+        chk.ob("R18.5", f"{mf.short}|{k}|classifier", ok, where(mf, c), detail="unicodeScriptDirection",
+               message=f"glyph directions are classified with `{T(f0, 40) if f0 is not None else None}` instead of ufo2ft.util.unicodeScriptDirection "
+                       f"(direction-neutral code points must map to None so that their glyphs take part in every direction's GSUB closure)")
+        a1 = A.arg_at(c, 1, "cmap")
+        ok, bad = every_origin(prog, mf, a1, lambda x, f: isinstance(x, ast.Call) and A.callee_name(x) == "makeUnicodeToGlyphNameMapping", allow_const=False) if a1 is not None else (False, ["missing"])
+        chk.ob("R18.5", f"{mf.short}|{k}|whole cmap", ok, where(mf, c), detail="cmap = self.makeUnicodeToGlyphNameMapping()",
+               message=f"classifyGlyphs no longer gets the whole code-point mapping ({bad}): glyphs reachable only through direction-neutral glyphs are "
+                       f"left out of the LTR set and end up in the RightToLeft lookup")
+        a2 = A.arg_at(c, 2, "gsub")
+        ok, bad = every_origin(prog, mf, a2, lambda x, f: isinstance(x, ast.Call) and A.callee_name(x) == "compileGSUB", allow_const=False) if a2 is not None else (False, ["missing"])
+        chk.ob("R18.5", f"{mf.short}|{k}|GSUB closure", ok, where(mf, c), detail="gsub = self.compileGSUB()",
+               message=f"classifyGlyphs is not given the compiled GSUB ({bad}): unencoded alternates of left-to-right glyphs are not classified")
+        a3 = A.arg_at(c, 3, "extra_substitutions")
+        ok, bad = every_origin(prog, mf, a3, lambda x, f: isinstance(x, ast.Call) and A.callee_name(x) == "extraSubstitutions", allow_const=False) if a3 is not None else (False, ["missing"])
+        chk.ob("R18.5", f"{mf.short}|{k}|designspace-rule substitutions", ok, where(mf, c), detail="extras = self.extraSubstitutions()",
+               message=f"classifyGlyphs is not given the designspace-rule substitutions ({bad})")
+    # the LTR set used for the split is that classification
+    for c in calls_named(mf, "_makeCursiveLookup"):
+        gen = c.args[0] if c.args else None
+        if not isinstance(gen, ast.GeneratorExp) or not gen.generators[0].ifs:
+            continue
+        p = A.compare_parts(gen.generators[0].ifs[0])
+        if p is None:
+            continue
+        base = p[2].value if isinstance(p[2], ast.Subscript) else p[2]
+        ok, bad = every_origin(prog, mf, base, lambda x, f: isinstance(x, ast.Call) and A.callee_name(x) == "classifyGlyphs", allow_const=False)
+        chk.ob("R18.5", f"{mf.short}|{A.keytext(mf.node, gen.generators[0].ifs[0])}|set comes from classifyGlyphs", ok, where(mf, c), detail=T(p[2]),
+               message=f"the LTR glyph set of the cursive split does not come from classifyGlyphs ({bad})")
+    # classifyGlyphs itself closes direction glyphs together with the neutral ones
+    cg = ix.get_func("ufo2ft.util:classifyGlyphs")
+    closes = [c for c in calls_named(cg, "closeGlyphsOverGSUB")]
+    unions = [n for n in A.body_nodes(cg.node) if isinstance(n, ast.BinOp) and isinstance(n.op, ast.BitOr)]
+    ok = len(closes) >= 2 and any(isinstance(ix.parent(u), ast.Assign) and any(isinstance(a, ast.Name) and a.id in A.target_names(ix.parent(u).targets[0]) for cl in closes for a in cl.args) for u in unions)
+    chk.ob("R18.5", f"{cg.short}|closure over GSUB includes the neutral glyphs", ok, where(cg), detail="s = glyphs | neutralGlyphs; closeGlyphsOverGSUB(gsub, s)",
+           message="classifyGlyphs no longer closes each class together with the neutral glyphs over GSUB")
+    chk.minimum("R18.5", 7)
+
+
 MUTANTS = [
+    M("direction-neutral code points filtered out of the cmap (seeded C18a)", "ufo2ft/featureWriters/cursFeatureWriter.py", "CursFeatureWriter._makeCursiveFeature",
+      "dirGlyphs = classifyGlyphs(unicodeScriptDirection, cmap, gsub, extras)",
+      "dirCmap = {uv: g for uv, g in cmap.items() if unicodeScriptDirection(uv) is not None}\ndirGlyphs = classifyGlyphs(unicodeScriptDirection, dirCmap, gsub, extras)", rule="R18.5"),
+    M("LTR classification without the GSUB closure", "ufo2ft/featureWriters/cursFeatureWriter.py", "CursFeatureWriter._makeCursiveFeature",
+      "classifyGlyphs(unicodeScriptDirection, cmap, gsub, extras)", "classifyGlyphs(unicodeScriptDirection, cmap, None, extras)", rule="R18.5"),
+    M("LTR classification without designspace-rule substitutions", "ufo2ft/featureWriters/cursFeatureWriter.py", "CursFeatureWriter._makeCursiveFeature",
+      "classifyGlyphs(unicodeScriptDirection, cmap, gsub, extras)", "classifyGlyphs(unicodeScriptDirection, cmap, gsub)", rule="R18.5"),
+    M("neutral glyphs no longer take part in the closure", "ufo2ft/util.py", "classifyGlyphs",
+      "s = glyphs | neutralGlyphs", "s = set(glyphs)", rule="R18.5"),
+    M("classifier treats neutral code points as LTR", "ufo2ft/featureWriters/cursFeatureWriter.py", "CursFeatureWriter._makeCursiveFeature",
+      "classifyGlyphs(unicodeScriptDirection, cmap, gsub, extras)", "classifyGlyphs(lambda uv: unicodeScriptDirection(uv) or 'LTR', cmap, gsub, extras)", rule="R18.5"),
+    M("keyword form of the classifyGlyphs call", "ufo2ft/featureWriters/cursFeatureWriter.py", "CursFeatureWriter._makeCursiveFeature",
+      "classifyGlyphs(unicodeScriptDirection, cmap, gsub, extras)", "classifyGlyphs(unicodeScriptDirection, cmap, gsub=gsub, extra_substitutions=extras)", kind="equiv"),
     M("GDEF mark and ligature classes swapped", "ufo2ft/featureWriters/gdefFeatureWriter.py", "GdefFeatureWriter._write",
       "ast.GlyphClass(self._sortedGlyphClass(categories.mark))", "ast.GlyphClass(self._sortedGlyphClass(categories.ligature))", rule="R18.1"),
     M("categories loader returns marks in the ligature slot", "ufo2ft/util.py", "OpenTypeCategories.load",
